@@ -107,6 +107,8 @@ class Fn:
                 env.pop(('d', l), None)
                 if rv['k'] == 'aggr' and rv.get('akind') == 'adt' and 'vidx' in rv:
                     env[('v', l)] = rv['vidx']
+                elif rv['k'] == 'use' and rv['op']['k'] == 'const' and (rv['op']['c'] or {}).get('ty') == 'bool' and (rv['op']['c'] or {}).get('k') == 'int':
+                    env[('d', l)] = int(rv['op']['c']['bits'])      # a bool constant: `switch l` is decided
                 elif rv['k'] == 'use' and rv['op']['k'] in ('copy', 'move') and not rv['op']['pl']['p']:
                     src = rv['op']['pl']['l']
                     for tag in ('v', 'd'):
@@ -123,6 +125,11 @@ class Fn:
                     env.pop(('d', d['l']), None)
                     f = t['fn']
                     nm = f.get('name', '') if f.get('k') == 'def' else ''
+                    if nm.endswith('>::from_residual'):
+                        if 'std::result::Result' in nm:
+                            env[('v', d['l'])] = 1
+                        elif 'std::option::Option' in nm:
+                            env[('v', d['l'])] = 0
                     if nm.endswith('>::branch') and len(t['args']) == 1 and t['args'][0]['k'] in ('copy', 'move') and not t['args'][0]['pl']['p']:
                         v = env.get(('v', t['args'][0]['pl']['l']))
                         if v is not None:
